@@ -3686,8 +3686,12 @@ func (r *JournalReader) Next() (err error) {
 		return io.EOF
 	}
 
-	// After the first segment, we require the magic bytes.
-	if r.offset > 0 && !bytes.Equal(hdr[:8], []byte(SQLITE_JOURNAL_HEADER_STRING)) {
+	// Every segment header must start with the magic bytes. SQLite writes the
+	// magic when it syncs the journal, which it does before it changes the
+	// database file, so a first header without it means there is nothing to
+	// roll back. Whatever follows such a header (e.g. segments left over from
+	// an earlier transaction in PERSIST mode) must not be applied.
+	if !bytes.Equal(hdr[:8], []byte(SQLITE_JOURNAL_HEADER_STRING)) {
 		return io.EOF
 	}
 
